@@ -121,6 +121,11 @@ def corpus():
             for k in range(1, len(s)):
                 extra.append(s[:k])
         if len(s) <= 120:
+            if " " in s:
+                # Unicode / control whitespace instead of blanks
+                extra.append(s.replace(" ", "\u00a0"))
+                extra.append(s.replace(" ", "\x0b"))
+                extra.append(s.replace(" ", "\u3000 "))
             extra.append("\ufeff" + s)
             extra.append("/*\u00e9\U0001f525*/" + s)
             extra.append("\u00e9=1;\n" + s)
